@@ -339,6 +339,8 @@ def accepts(sim0: Sim, act_out, act_subs, use_out: bool = True, use_subs: bool =
                 return False
             if use_subs and not _subs_final_ok(sim.sublog, act_subs):
                 return False
+            if stats is not None:
+                stats["witness"] = sim
             return True
         key = sim.key()
         if key in memo:
@@ -539,17 +541,21 @@ def max_live(raw_subs, names=None) -> int:
 
 
 def judge(case: dict, build, model_factory, extra=None):
-    """Run the real pipeline and the reference; return (problems [(class, text)], observation, stats)."""
+    """Run the real pipeline and the reference; return (problems [(class, text)], observation, stats).
+    stats["witness"] is the reference linearisation that equals the observation (or, on a mismatch,
+    one admissible linearisation): non-triviality rules are evaluated on it, i.e. on what the
+    reference says the case exercises, so they do not depend on the behaviour under test."""
     ob = execute(case, build)
     problems: list[tuple[str, str]] = []
     stats: dict = {}
+    sim0 = Sim(case, model_factory(case)).start()
     if ob.status != "ok":
         problems.append(("budget", "run did not reach quiescence within the action budget"))
+        stats["witness"] = canonical(sim0)
         return problems, ob, stats
-    sim0 = Sim(case, model_factory(case)).start()
     use_out = not case.get("out_free", False)
     if not accepts(sim0, ob.out, ob.subs, use_out=use_out, stats=stats):
-        can = canonical(sim0)
+        can = stats["witness"] = canonical(sim0)
         if use_out and not accepts(sim0, ob.out, ob.subs, use_out=True, use_subs=False):
             problems.append(("output", f"output {show_out(ob.out)} is not admissible; one admissible output is {show_out(can.out)}"))
         else:
